@@ -15,7 +15,52 @@ DPD = "src/ampform/helicity/align/dpd.py"
 
 SHALLOW_BODY = "    return tuple(getattr(instance, field.name) for field in _get_fields(instance))"
 
+KM = "src/ampform/dynamics/kmatrix.py"
+FF = "src/ampform/dynamics/form_factor.py"
+BLD = "src/ampform/dynamics/builder.py"
+
 CATALOG: dict[str, list[Mutant]] = {
+    "C09": [
+        M("C09", "t-plus-i", KM, "        t_matrix = k_matrix * (sp.eye(n_channels) - sp.I * k_matrix).inv()", "        t_matrix = k_matrix * (sp.eye(n_channels) + sp.I * k_matrix).inv()", must_mention="NonRelativisticKMatrix._create_matrices"),
+        M("C09", "t-no-inverse", KM, "        t_matrix = k_matrix * (sp.eye(n_channels) - sp.I * k_matrix).inv()", "        t_matrix = k_matrix * (sp.eye(n_channels) - sp.I * k_matrix)", must_mention="NonRelativisticKMatrix._create_matrices"),
+        M("C09", "t-hat-rho-wrong-side", KM, "        t_hat = k_matrix * (sp.eye(n_channels) - sp.I * rho * k_matrix).inv()", "        t_hat = k_matrix * (sp.eye(n_channels) - sp.I * k_matrix * rho).inv()", must_mention="RelativisticKMatrix._create_matrices"),
+        M("C09", "t-hat-missing-rho", KM, "        t_hat = k_matrix * (sp.eye(n_channels) - sp.I * rho * k_matrix).inv()", "        t_hat = k_matrix * (sp.eye(n_channels) - sp.I * k_matrix).inv()", must_mention="RelativisticKMatrix._create_matrices"),
+        M("C09", "t-no-conjugate", KM, "        t_matrix = sqrt_rho_conj * t_hat * sqrt_rho\n", "        t_matrix = sqrt_rho * t_hat * sqrt_rho\n", must_mention="RelativisticKMatrix._create_matrices"),
+        M("C09", "t-rho-instead-of-sqrt", KM, "        t_matrix = sqrt_rho_conj * t_hat * sqrt_rho\n", "        t_matrix = sqrt_rho_conj * t_hat * rho\n", must_mention="RelativisticKMatrix._create_matrices"),
+        M("C09", "residue-asymmetric-nonrel", KM, "        g_i = residue_function(pole_id, i)\n        g_j = residue_function(pole_id, j)\n        parametrization = (g_i * g_j) / (pole_position[pole_id] ** 2 - s)\n        return sp.Sum(parametrization, (pole_id, 1, n_poles))\n\n\nclass NonRelativisticPVector", "        g_i = residue_function(pole_id, i)\n        g_j = residue_function(pole_id, i)\n        parametrization = (g_i * g_j) / (pole_position[pole_id] ** 2 - s)\n        return sp.Sum(parametrization, (pole_id, 1, n_poles))\n\n\nclass NonRelativisticPVector", must_mention="symmetric"),
+        M("C09", "width-of-wrong-channel", KM, "                    gamma0=pole_width[pole_id, i],\n                    m_a=m_a[i],", "                    gamma0=pole_width[pole_id, j],\n                    m_a=m_a[i],", must_mention="symmetric"),
+        M("C09", "imaginary-residue", KM, "        parametrization = (g_i * g_j) / (pole_position[pole_id] ** 2 - s)\n        return sp.Sum(parametrization, (pole_id, 1, n_poles))\n\n\nclass NonRelativisticKMatrix", "        parametrization = (g_i * g_j) / (pole_position[pole_id] ** 2 - s - sp.I * pole_width[pole_id, i] * pole_width[pole_id, j])\n        return sp.Sum(parametrization, (pole_id, 1, n_poles))\n\n\nclass NonRelativisticKMatrix", must_mention="real"),
+        M("C09", "pole-sum-from-zero", KM, "        return sp.Sum(parametrization, (pole_id, 1, n_poles))\n\n\nclass NonRelativisticKMatrix", "        return sp.Sum(parametrization, (pole_id, 0, n_poles))\n\n\nclass NonRelativisticKMatrix", must_mention="pole-sum"),
+        M("C09", "rho-consumer-assumption", KM, "            sp.Symbol(f\"rho{i}\"): phsp_factor(s, m_a[i], m_b[i])\n            for i in range(n_channels)\n        })\n\n    @staticmethod", "            sp.Symbol(f\"rho{i}\", real=True): phsp_factor(s, m_a[i], m_b[i])\n            for i in range(n_channels)\n        })\n\n    @staticmethod", must_mention="rho"),
+        M("C09", "rho-producer-renamed", KM, "        rho_matrix[i, i] = sp.Symbol(f\"rho{i}\")", "        rho_matrix[i, i] = sp.Symbol(f\"rho_{i}\")", must_mention="rho"),
+        M("C09", "transposed-substitution", KM, "            k_matrix[i, j]: cls.parametrization(\n                i=i,\n                j=j,\n                s=sp.Symbol", "            k_matrix[j, i]: cls.parametrization(\n                i=i,\n                j=i,\n                s=sp.Symbol", must_mention="R-WIRING"),
+        M("C09", "mass-symbol-assumption-drift", KM, "        m_a = sp.IndexedBase(\"m_a\", nonnegative=True)\n        m_b = sp.IndexedBase(\"m_b\", nonnegative=True)\n        return t_matrix", "        m_a = sp.IndexedBase(\"m_a\", positive=True)\n        m_b = sp.IndexedBase(\"m_b\", nonnegative=True)\n        return t_matrix", must_mention="m_a"),
+        M("C09", "neutral-inverse-on-left", KM, "        t_matrix = k_matrix * (sp.eye(n_channels) - sp.I * k_matrix).inv()", "        t_matrix = (sp.eye(n_channels) - sp.I * k_matrix).inv() * k_matrix", expect="silent"),
+        M("C09", "neutral-push-through", KM, "        t_hat = k_matrix * (sp.eye(n_channels) - sp.I * rho * k_matrix).inv()", "        t_hat = (sp.eye(n_channels) - sp.I * k_matrix * rho).inv() * k_matrix", expect="silent"),
+        M("C09", "neutral-commuted-residues", KM, "        parametrization = (g_i * g_j) / (pole_position[pole_id] ** 2 - s)\n        return sp.Sum(parametrization, (pole_id, 1, n_poles))\n\n\nclass NonRelativisticKMatrix", "        denominator = pole_position[pole_id] ** 2 - s\n        parametrization = g_j * g_i / denominator\n        return sp.Sum(parametrization, (pole_id, 1, n_poles))\n\n\nclass NonRelativisticKMatrix", expect="silent"),
+        M("C09", "neutral-different-normalisation", KM, "        parametrization = (g_i * g_j) / (pole_position[pole_id] ** 2 - s)\n        return sp.Sum(parametrization, (pole_id, 1, n_poles))\n\n\nclass NonRelativisticPVector", "        parametrization = 2 * (g_i * g_j) / (pole_position[pole_id] ** 2 - s)\n        return sp.Sum(parametrization, (pole_id, 1, n_poles))\n\n\nclass NonRelativisticPVector", expect="silent"),
+    ],
+    "C10": [
+        M("C10", "drop-phsp-again", KM, "                    meson_radius=meson_radius,\n                    phsp_factor=phsp_factor,\n                )\n                for i in range(n_channels)\n                for j in range(n_channels)\n            })\n            .xreplace({", "                    meson_radius=meson_radius,\n                )\n                for i in range(n_channels)\n                for j in range(n_channels)\n            })\n            .xreplace({", must_mention="phsp_factor"),
+        M("C10", "pvector-default-radius", KM, "                    angular_momentum=angular_momentum,\n                    meson_radius=meson_radius,\n                )\n                for i in range(n_channels)\n            })", "                    angular_momentum=angular_momentum,\n                )\n                for i in range(n_channels)\n            })", must_mention="meson_radius"),
+        M("C10", "kmatrix-literal-L", KM, "                angular_momentum=angular_momentum,\n                meson_radius=meson_radius,\n                phsp_factor=phsp_factor,\n            )\n            for i in range(n_channels)", "                angular_momentum=0,\n                meson_radius=meson_radius,\n                phsp_factor=phsp_factor,\n            )\n            for i in range(n_channels)", must_mention="angular_momentum"),
+        M("C10", "residue-default-phsp", KM, "                    meson_radius=meson_radius,\n                    phsp_factor=phsp_factor,\n                )\n            )", "                    meson_radius=meson_radius,\n                    phsp_factor=PhaseSpaceFactor,\n                )\n            )", must_mention="phsp_factor"),
+        M("C10", "width-ff-without-radius", DYN, "        ff = FormFactor(s, m1, m2, angular_momentum, meson_radius)\n", "        ff = FormFactor(s, m1, m2, angular_momentum)\n", must_mention="meson_radius"),
+        M("C10", "bw-ff-drops-phsp", DYN, "        s, mass0, gamma0, m_a, m_b, angular_momentum, meson_radius, phsp_factor\n    )", "        s, mass0, gamma0, m_a, m_b, angular_momentum, meson_radius\n    )", must_mention="phsp_factor"),
+        M("C10", "builder-ignores-phsp", BLD, "            phsp_factor=self.phsp_factor,  # type:ignore[arg-type]\n", "", must_mention="phsp_factor"),
+        M("C10", "builder-L-of-wrong-source", BLD, "            angular_momentum=angular_momentum,\n            meson_radius=meson_radius,\n            phsp_factor=self.phsp_factor", "            angular_momentum=0,\n            meson_radius=meson_radius,\n            phsp_factor=self.phsp_factor", must_mention="angular_momentum"),
+        M("C10", "formfactor-swaps-args", FF, "        ff_squared = BlattWeisskopfSquared(q2 * meson_radius**2, angular_momentum)", "        ff_squared = BlattWeisskopfSquared(q2 * meson_radius**2, meson_radius)", must_mention="angular_momentum"),
+        M("C10", "f-plus-i", KM, "        f_vector = (sp.eye(n_channels) - sp.I * k_matrix).inv() * p_vector", "        f_vector = (sp.eye(n_channels) + sp.I * k_matrix).inv() * p_vector", must_mention="NonRelativisticPVector._create_matrices"),
+        M("C10", "f-p-on-left", KM, "        f_vector = (sp.eye(n_channels) - sp.I * k_matrix).inv() * p_vector", "        f_vector = p_vector.T * (sp.eye(n_channels) - sp.I * k_matrix).inv()", must_mention="NonRelativisticPVector._create_matrices"),
+        M("C10", "f-hat-without-rho", KM, "        f_hat = (sp.eye(n_channels) - sp.I * k_hat * rho).inv() * p_vector", "        f_hat = (sp.eye(n_channels) - sp.I * k_hat).inv() * p_vector", must_mention="RelativisticPVector._create_matrices"),
+        M("C10", "k-hat-not-inverted", KM, "        k_hat = sqrt_rho_conj.inv() * k_matrix * sqrt_rho.inv()", "        k_hat = sqrt_rho_conj * k_matrix * sqrt_rho", must_mention="RelativisticPVector._create_matrices"),
+        M("C10", "f-missing-sqrt-rho", KM, "        f_vector = sqrt_rho * f_hat\n", "        f_vector = f_hat\n", must_mention="RelativisticPVector._create_matrices"),
+        M("C10", "pvector-uses-nonrel-k", KM, "                k_matrix[i, j]: RelativisticKMatrix.parametrization(\n                    i=i,\n                    j=j,\n                    s=s,\n                    pole_position=pole_position,\n                    pole_width=pole_width,\n                    m_a=m_a,\n                    m_b=m_b,\n                    residue_constant=residue_constant,\n                    n_poles=n_poles,\n                    pole_id=pole_id,\n                    angular_momentum=angular_momentum,\n                    meson_radius=meson_radius,\n                    phsp_factor=phsp_factor,\n                )", "                k_matrix[i, j]: NonRelativisticKMatrix.parametrization(\n                    i=i,\n                    j=j,\n                    s=s,\n                    pole_position=pole_position,\n                    pole_width=pole_width,\n                    residue_constant=residue_constant,\n                    n_poles=n_poles,\n                    pole_id=pole_id,\n                )", must_mention="R-WIRING"),
+        M("C10", "pvector-own-pole-symbols", KM, "                    i=i,\n                    s=s,\n                    pole_position=pole_position,\n                    pole_width=pole_width,\n                    m_a=m_a,\n                    m_b=m_b,\n                    beta_constant", "                    i=i,\n                    s=s,\n                    pole_position=sp.IndexedBase(\"M\", nonnegative=True),\n                    pole_width=pole_width,\n                    m_a=m_a,\n                    m_b=m_b,\n                    beta_constant", must_mention="pole_position"),
+        M("C10", "neutral-positional-forward", DYN, "    form_factor = FormFactor(s, m_a, m_b, angular_momentum, meson_radius)\n    energy", "    form_factor = FormFactor(s, m_a, m_b, meson_radius=meson_radius, angular_momentum=angular_momentum)\n    energy", expect="silent"),
+        M("C10", "neutral-derived-forward", KM, "        f_vector, k_matrix, p_vector = cls._create_matrices(n_channels, return_f_hat)\n        if not parametrize:\n            return f_vector\n        s = sp.Symbol", "        f_vector, k_matrix, p_vector = cls._create_matrices(n_channels, return_f_hat)\n        if not parametrize:\n            return f_vector\n        meson_radius = sp.sympify(meson_radius)\n        s = sp.Symbol", expect="silent"),
+        M("C10", "neutral-local-alias-phsp", BLD, "            phsp_factor=self.phsp_factor,  # type:ignore[arg-type]\n", "            phsp_factor=(rho := self.phsp_factor),\n", expect="silent"),
+    ],
     "C14": [
         M("C14", "astuple-again", DEC, SHALLOW_BODY, "    return dataclasses.astuple(instance)", must_mention="astuple"),
         M("C14", "asdict-values", DEC, SHALLOW_BODY, "    return tuple(dataclasses.asdict(instance).values())", must_mention="asdict"),
